@@ -50,6 +50,10 @@ type Case struct {
 //	up      reopen B's peer on the same key and port; Burst as above
 //	settle  checkpoint: obligation invariant; Full: also wait until B has everything
 //	setrep  A.SetReplicator(B) (configs rep/both; once)
+//	fault   arm the block-write fault on B: V more block writes (pushed heads, fetched blocks) are
+//	        stored, every later one fails until healed - a sync on B is interrupted mid-way
+//	heal    with B up wait until the fault has interrupted a sync (bounded), then clear it; also done
+//	        implicitly before a full checkpoint and before the final phase
 //	pause   let Ms milliseconds pass (outage length; lets the retry loop run while B is still down)
 type Op struct {
 	K     string  `json:"k"`
@@ -146,6 +150,7 @@ func drawCase(t *rapid.T) Case {
 	}
 	n := rapid.IntRange(5, 14).Draw(t, "nops")
 	writesThisOutage := 0
+	armed, faults := false, 0
 	for i := 0; i < n; i++ {
 		// rapid's integer generator favours small values, so the kind listed first is drawn most
 		// often: the order below puts the step that makes the history interesting first.
@@ -175,6 +180,10 @@ func drawCase(t *rapid.T) Case {
 			patchW(25)
 			add("pause", 8)
 			add("up", 8)
+		case armed:
+			add("up", 60)
+			add("w", 20)
+			add("pause", 5)
 		default:
 			patchW(30)
 			add("up", 30)
@@ -183,6 +192,16 @@ func drawCase(t *rapid.T) Case {
 		}
 		if !repSet {
 			add("setrep", 15)
+		}
+		// "sync on B interrupted mid-way": armed mostly while B is down and at least two writes behind
+		// (the DAG to fetch is then at least two levels deep), healed after B is back
+		switch {
+		case armed && up:
+			kinds, weights = append([]string{"heal"}, kinds...), append([]int{40}, weights...)
+		case !armed && faults < 2 && !up && writesThisOutage >= 2:
+			kinds, weights = append([]string{"fault"}, kinds...), append([]int{45}, weights...)
+		case !armed && faults < 2 && up && outages > 0:
+			add("fault", 6)
 		}
 		k := pick(t, "kind", kinds, weights)
 		op := Op{K: k}
@@ -213,6 +232,12 @@ func drawCase(t *rapid.T) Case {
 			op.Full = rapid.Bool().Draw(t, "full")
 		case "setrep":
 			repSet = true
+		case "fault":
+			op.V = rapid.IntRange(1, 8).Draw(t, "budget")
+			armed = true
+			faults++
+		case "heal":
+			armed = false
 		case "pause":
 			op.Ms = rapid.SampledFrom([]int{50, 400, 2500, 2500, 5000}).Draw(t, "ms")
 		}
@@ -237,6 +262,9 @@ type shape struct {
 	patchAOnly                bool
 	supersededPending         bool // a write at a patched version while B down, then another patch before B is back
 	longOutage                bool // >= 2.5s of pause while B down: the retry loop runs against a dead peer
+	faults                    int
+	faultTwoBehind            bool // fault armed while B is down and some document got >= 2 writes in this outage
+	faultWhileUp              bool
 }
 
 func shapeOf(c Case) shape {
@@ -246,7 +274,11 @@ func shapeOf(c Case) shape {
 	patchedWriteThisOutage := false
 	writesThisOutage := 0
 	writes := 0
-	countWrite := func(f string) {
+	perDoc := map[int]int{}
+	countWrite := func(doc int, f string) {
+		if !up {
+			perDoc[doc%max(1, c.NDocs)]++
+		}
 		writes++
 		if !up {
 			s.writesDown++
@@ -265,11 +297,12 @@ func shapeOf(c Case) shape {
 	for _, op := range c.Ops {
 		switch op.K {
 		case "w":
-			countWrite(op.F)
+			countWrite(op.Doc, op.F)
 		case "down":
 			if up {
 				s.outages++
 				writesThisOutage = 0
+				perDoc = map[int]int{}
 				patchedWriteThisOutage = false
 				if len(op.Burst) > 0 {
 					s.burstOutage = true
@@ -278,7 +311,7 @@ func shapeOf(c Case) shape {
 				up = false
 				everDown = true
 				for _, w := range op.Burst {
-					countWrite(w.F)
+					countWrite(w.Doc, w.F)
 				}
 			}
 		case "up":
@@ -287,9 +320,20 @@ func shapeOf(c Case) shape {
 					s.burstOutage = true
 				}
 				for _, w := range op.Burst {
-					countWrite(w.F)
+					countWrite(w.Doc, w.F)
 				}
 				up = true
+			}
+		case "fault":
+			s.faults++
+			if up {
+				s.faultWhileUp = true
+			} else {
+				for _, n := range perDoc {
+					if n >= 2 {
+						s.faultTwoBehind = true
+					}
+				}
 			}
 		case "pause":
 			if !up && op.Ms >= 2500 && writesThisOutage > 0 {
@@ -380,6 +424,15 @@ func labelsOf(c Case, s shape) []string {
 	if s.patched <= 1 && !s.patchAOnly && !c.Branchable && !c.APubSubOff {
 		l = append(l, "known-triggers-absent")
 	}
+	if s.faults > 0 {
+		l = append(l, "sync-fault-armed")
+	}
+	if s.faultTwoBehind {
+		l = append(l, "sync-fault-with-b-two-commits-behind")
+	}
+	if s.faultWhileUp {
+		l = append(l, "sync-fault-armed-while-b-up")
+	}
 	if s.longOutage {
 		l = append(l, "retry-attempted-while-b-still-down")
 	}
@@ -399,6 +452,11 @@ func evalCase(t hx.TB, c Case) bool {
 	if os.Getenv("C15_TRACE") != "" {
 		raw, _ := json.Marshal(c)
 		fmt.Printf("CASE %s\nlabels %v\nfailure %v\n%s\n", raw, labels, f, info.trace)
+	}
+	if f != nil && os.Getenv("C15_COUNT_ONLY") != "" {
+		// development aid: count failing cases per signature instead of stopping at the first
+		labels = append(labels, "FAILED:"+f.Sig)
+		f = nil
 	}
 	rec.Eval(c, s.writesDown > 0 && s.writesAfterUp > 0, labels...)
 	return rec.Check(t, c, f)
